@@ -1,6 +1,6 @@
 (* C16 -- the inductive invariant relating the model state to the monitor state, and
    its preservation by every primitive of the model. *)
-From Coq Require Import List NArith Bool Btauto Lia.
+From Coq Require Import List NArith Arith Bool Btauto Lia.
 Import ListNotations.
 From TV Require Import Lib.Obs C16.Model C16.Spec.
 
@@ -20,7 +20,7 @@ Definition Jb (a : acc) (s : state) : bool :=
   && Bool.eqb (a_fired a) (loop_done s)
   && implb (s_called s) (a_fired a)
   && implb (a_local a) (negb (s_hconn s))
-  && implb (negb (s_hconn s)) (a_local a || s_sc s)
+  && implb (negb (s_hconn s)) (a_local a || s_sc s || s_st s)
   && negb (is_some (a_echo a)).
 
 (* data part *)
@@ -30,8 +30,7 @@ Definition Jd (a : acc) (s : state) : Prop :=
   | Some p => s_pcode s = code_of p /\ s_preason s = reason_of p
   end.
 
-Definition quiet (l : list item) : Prop :=
-  cnt is_wok l = 0%nat /\ cnt is_werr l = 0%nat /\ cnt is_data l = 0%nat.
+Definition quiet (l : list item) : Prop := counts l = zeros.
 
 Definition okstep (a : acc) (s : state) (r : state * list item) (a' : acc) : Prop :=
   mon_items a (snd r) = Some a' /\ Jb a' (fst r) = true /\ Jd a' (fst r)
@@ -60,10 +59,16 @@ Qed.
 
 Lemma cnt_app : forall f l1 l2, cnt f (l1 ++ l2) = (cnt f l1 + cnt f l2)%nat.
 Proof. intros. unfold cnt. rewrite filter_app, app_length. reflexivity. Qed.
+Lemma counts_app_quiet : forall l1 l2, quiet l2 -> counts (l1 ++ l2) = counts l1.
+Proof.
+  unfold quiet, counts, zeros; intros l1 l2 H.
+  injection H as H1 H2 H3 H4 H5 H6.
+  rewrite !cnt_app, H1, H2, H3, H4, H5, H6, !Nat.add_0_r. reflexivity.
+Qed.
 Lemma quiet_app : forall l1 l2, quiet l1 -> quiet l2 -> quiet (l1 ++ l2).
-Proof. unfold quiet; intros l1 l2 (A & B & C) (D & E & F). rewrite !cnt_app. lia. Qed.
+Proof. intros l1 l2 A B. unfold quiet. rewrite (counts_app_quiet _ _ B). exact A. Qed.
 Lemma quiet_nil : quiet [].
-Proof. repeat split. Qed.
+Proof. reflexivity. Qed.
 
 (* solve  Jb new = true  from  H : Jb old = true : case analysis on the boolean atoms, one at
    a time, pruning the cases excluded by H as early as possible *)
@@ -113,7 +118,7 @@ Lemma Jb_parts : forall a s, Jb a s = true ->
   /\ a_fired a = ld (s_loop s)
   /\ (s_called s = true -> a_fired a = true)
   /\ (a_local a = true -> s_hconn s = false)
-  /\ (s_hconn s = false -> a_local a = true \/ s_sc s = true).
+  /\ (s_hconn s = false -> a_local a = true \/ s_sc s = true \/ s_st s = true).
 Proof.
   intros a s H. unfold Jb, ping_none, loop_done in H. rewrite !andb_true_iff in H.
   destruct H as ((((((((((H1 & H2) & H3) & H4) & H5) & H6) & H7) & H8) & H9) & H10) & H11).
@@ -129,7 +134,7 @@ Proof.
   - apply eqb_prop; auto.
   - intros E; rewrite E in H8; auto.
   - intros E; rewrite E in H9; simpl in H9. destruct (s_hconn s); auto; discriminate.
-  - intros E; rewrite E in H10; simpl in H10. apply orb_true_iff in H10; auto.
+  - intros E; rewrite E in H10; simpl in H10. rewrite !orb_true_iff in H10. tauto.
 Qed.
 
 Ltac fin0 Hb :=
@@ -197,13 +202,13 @@ Proof.
   brk. cbn in He, Hs, Hs2, Hhc, Hl, Hct, Hsc. subst.
   assert (a_hc0 = None) by (destruct a_hc0; auto; specialize (Hhc eq_refl); discriminate). subst.
   destruct Hd as [Hd1 Hd2]; cbn in Hd1, Hd2; subst.
-  unfold handle_frame, okstep, abort, proto_close, eff_kind.
+  unfold handle_frame, okstep, abort, proto_close.
   destruct s_st0, a_sent0;
     try (specialize (Hs eq_refl); discriminate);
     try (destruct (Hs2 eq_refl eq_refl); discriminate);
     (destruct f as [p|k| | | |];
      [ destruct p as [|b|c rs|c]; [ | | destruct rs | ]
-     | destruct r, k
+     | destruct k
      | | | | ];
      unf; destruct s_wait0; unf; cbn; rewrite ?oN_eqb_refl, ?N.eqb_refl; cbn;
      (eexists; split; [repeat split; fin0 Hb | auto])).
